@@ -62,10 +62,13 @@ RULE = (
     "gates on one or several unmeasured qubits, optional else branch), further gates on "
     "unmeasured qubits, a drawn analysis layer of single-qubit gates, then a drawn subset "
     "of the remaining qubits is measured (the rest is read from the final Fock state); "
-    "measurement k writes clbit k or, in a third of the cases, a drawn injection "
-    "positions -> clbits. main mixes all shapes; lowcut (no entangling gate, all but one "
+    "measurement k writes clbit k (half of the cases), a drawn injection positions -> "
+    "clbits (a sixth) or a drawn map with collisions (a third: two measurements that precede "
+    "a conditioned block write the same clbit, the block must follow the latest write). "
+    "main mixes all shapes; lowcut (no entangling gate, all but one "
     "qubit measured: post-measurement cutoff 2), leak_condition (condition on a clbit "
     "measured after an entangling gate and after another measurement), clbit_order, "
+    "clbit_rewrite (3 qubits, two measurements into one clbit, block conditioned on it), "
     "multi_qubit_body, else_body force one shape each (regression probes of the four "
     "defects found by this check); block_rejects enumerates cz/cx/measure/nested if inside "
     "a block and a condition on an unwritten clbit, which must raise ValueError. "
@@ -91,7 +94,7 @@ ASSUMPTIONS = [
 # class histogram in evidence/C19.json.
 FLOORS = {"adaptive": 0.15, "lowcut": 0.05, "ent>=1": 0.15, "readout_state": 0.1,
           "readout_measure": 0.1, "out_of_order": 0.05, "multi_qubit_body": 0.04,
-          "has_else": 0.05, "cond_after_ent_and_meas": 0.01}
+          "has_else": 0.05, "cond_after_ent_and_meas": 0.01, "clbit_rewritten_cond": 0.03}
 
 SINGLE = ["h", "x", "y", "z", "rx", "ry", "rz", "u", "p"]
 DIAGONAL = {"z", "rz", "p"}
@@ -221,6 +224,14 @@ def features(desc):
     f["multi_qubit_body"] = any(
         len({q for g in qr.iter_gates([op]) for q in g["q"]}) > 1 for op in ifs)
     f["has_else"] = any(op.get("orelse") for op in ifs)
+    # a conditioned block on a clbit that has been written by >= 2 measurements before it
+    writes, rewritten = {}, False
+    for op in ops:
+        if op["g"] == "measure":
+            writes[op["c"]] = writes.get(op["c"], 0) + 1
+        elif op["g"] == "if" and writes.get(op["c"], 0) >= 2:
+            rewritten = True
+    f["clbit_rewritten_cond"] = rewritten
     # is there a measurement that is followed by anything but measurements?
     seen_meas, adaptive = False, False
     for op in ops:
@@ -310,7 +321,7 @@ def _prop(case, ctx):
     if k >= 1:
         classes.append("ent>=1")
     for name in ("adaptive", "lowcut", "out_of_order", "multi_qubit_body", "has_else",
-                 "cond_after_ent_and_meas"):
+                 "cond_after_ent_and_meas", "clbit_rewritten_cond"):
         if f[name]:
             classes.append(name)
     if f["n_if"]:
@@ -525,7 +536,7 @@ def if_block(draw, written, targets, multi=None, orelse=None):
 
 @st.composite
 def circuit(draw, mode="main", tier="quick"):
-    """mode: main (all shapes mixed) | lowcut | leak_condition | clbit_order |
+    """mode: main (all shapes mixed) | lowcut | leak_condition | clbit_order | clbit_rewrite |
     multi_qubit_body | else_body (one shape forced each) | three_cz"""
     mixed = mode == "main"          # block shapes / clbit assignment drawn, not forced
     if mode == "main" and draw(st.integers(0, 5)) == 0:
@@ -536,6 +547,9 @@ def circuit(draw, mode="main", tier="quick"):
     if mode == "lowcut":
         n = draw(st.sampled_from([2, 2, 3]))
         ent = [0]
+    elif mode == "clbit_rewrite":
+        n = 3
+        ent = [draw(st.integers(0, 1))]
     elif mode == "leak_condition":
         n = 3
         ent = [draw(st.integers(1, 2))]
@@ -587,14 +601,14 @@ def circuit(draw, mode="main", tier="quick"):
     else:
         ops.extend(draw(gate_block(free, take(1, 5 if adaptive else 8), ent)))
     if adaptive:
-        if n == 2 or mode in ("lowcut", "multi_qubit_body", "leak_condition"):
+        if n == 2 or mode in ("lowcut", "multi_qubit_body", "leak_condition", "clbit_rewrite"):
             rounds = 1
         else:
             rounds = draw(st.integers(1, 2))
         for _ in range(rounds):
             if len(free) < 2:
                 break
-            if mode in ("lowcut", "leak_condition"):
+            if mode in ("lowcut", "leak_condition", "clbit_rewrite"):
                 how_many = len(free) - 1
             elif mode == "multi_qubit_body":
                 how_many = 1
@@ -647,14 +661,29 @@ def circuit(draw, mode="main", tier="quick"):
         ops.append({"g": "measure", "q": [q], "c": nmeas})
         nmeas += 1
     ncl = max(n, nmeas)
-    if nmeas and (mode == "clbit_order" or (mixed and draw(st.integers(0, 2)) == 0)):
-        # re-assign the clbits with a drawn injection positions -> clbits (forced to differ
-        # from the identity in the clbit_order part)
+    # clbit assignment: measurement k -> clbit k (half of the mixed cases), a drawn
+    # injection positions -> clbits, or a drawn map *with* collisions: a clbit written by
+    # two measurements holds the latest result (Qiskit semantics, as in lib/qubit_ref.py),
+    # and a later if_test on it must follow the latest measurement.
+    style = {"clbit_order": 3, "clbit_rewrite": 4}.get(mode)
+    if style is None:
+        style = draw(st.integers(0, 5)) if mixed else 0
+    if nmeas and style >= 3:
         ncl = max(n, nmeas) + draw(st.integers(0, 1))
         pool = list(range(ncl))
-        perm = list(draw(st.permutations(pool)))[:nmeas]
-        if mode == "clbit_order" and perm == list(range(nmeas)):
-            perm = perm[::-1] if nmeas >= 2 else [pool[-1]]
+        if style == 3:
+            perm = list(draw(st.permutations(pool)))[:nmeas]
+            if mode == "clbit_order" and perm == list(range(nmeas)):
+                perm = perm[::-1] if nmeas >= 2 else [pool[-1]]
+        else:
+            perm = [draw(st.sampled_from(pool)) for _ in range(nmeas)]
+            # make sure two measurements that precede the last conditioned block share a
+            # clbit (when there are two), so that the block reads a re-written clbit
+            last_if = max((i for i, op in enumerate(ops) if op["g"] == "if"), default=-1)
+            before = [op["c"] for op in ops[:max(last_if, 0)] if op["g"] == "measure"]
+            if len(before) >= 2:
+                a, b = list(draw(st.permutations(before)))[:2]
+                perm[b] = perm[a]
         for op in ops:
             if op["g"] in ("measure", "if"):
                 op["c"] = perm[op["c"]]
@@ -724,6 +753,9 @@ def parts(tier):
              budget_s={"quick": 60, "thorough": 600}),
         Part("clbit_order", prop, strategy=lambda tier: circuit("clbit_order", tier),
              examples={"quick": 48, "thorough": 400},
+             budget_s={"quick": 60, "thorough": 600}),
+        Part("clbit_rewrite", prop, strategy=lambda tier: circuit("clbit_rewrite", tier),
+             examples={"quick": 32, "thorough": 300},
              budget_s={"quick": 60, "thorough": 600}),
         Part("multi_qubit_body", prop, strategy=lambda tier: circuit("multi_qubit_body", tier),
              examples={"quick": 48, "thorough": 400},
